@@ -133,6 +133,31 @@ pub fn workload(tier: Tier) -> Vec<Work> {
             }
         }
     }
+    // B2b: short references placed around statement numbers where a narrowed line counter changes
+    // sign or wraps (2^15, 2^14, 2^8): padding, then a reference one or two statements away
+    for kind in REF_KINDS {
+        for pad in [0x7FFCu32, 0x7FFD, 0x7FFE, 0x7FFF, 0x8000, 0x8001, 0x3FFF, 0x4000, 0xFF, 0x100, 0xFFF0] {
+            for fwd in [true, false] {
+                let mut prog = Program::default();
+                let mut left = pad;
+                while left > 0 {
+                    let c = left.min(0x7FFF);
+                    prog.push(None, Stmt::Blkw(Lit::hex(c as u16)));
+                    left -= c;
+                }
+                if fwd {
+                    prog.push(None, kind.stmt("near", 1));
+                    prog.push(None, Stmt::Not(0, 0));
+                    prog.push(Some("near"), Stmt::Named(0x25, "halt"));
+                } else {
+                    prog.push(Some("near"), Stmt::Not(0, 0));
+                    prog.push(None, Stmt::Not(1, 1));
+                    prog.push(None, kind.stmt("near", 1));
+                }
+                w.push(Work { space: "B2b/reference-across-line-counter-boundary", prog, stack: kind == RefKind::Call, layout: Layout::PLAIN });
+            }
+        }
+    }
     // B3: full unsigned ranges: every .orig value, every TRAP vector value up to 300
     for o in 0..=0xFFFFu32 {
         for lit in [Lit::hex(o as u16), Lit::dec(o as i32)] {
